@@ -1058,31 +1058,31 @@ def check(run):
                 "(R04c) operations on the container parameter of each element parser are supported by every type "
                 "it is dispatched for; (R04d) every while loop matches a termination argument, numeric shrink "
                 "loops need a finiteness guard; (R04e) the wrapped function is called only with get_params' result.")
-    r04a(run)
-    nb = r04b(run)
-    r04c(run)
+    run.rule(r04a, run)
+    nb = run.rule(r04b, run)
+    run.rule(r04c, run)
     mods = ["utype.utils.transform", "utype.parser.func", "utype.parser.rule", "utype.parser.field",
             "utype.parser.base", "utype.parser.cls", "utype.parser.options", "utype.schema"]
     if run.thorough:
         mods += ["utype.utils.base", "utype.utils.functional", "utype.utils.encode", "utype.utils.compat",
                  "utype.utils.datastructures", "utype.decorator", "utype.types"]
-    nl = r04d(run, mods)
+    nl = run.rule(r04d, run, mods)
     run.floor("R04d", "while loops in the analysed modules", nl, 4)
-    r04d_recursion(run, mods)
-    r04e(run)
+    run.rule(r04d_recursion, run, mods)
+    run.rule(r04e, run)
     from . import c10
     run.rules_run.append("R04f")
-    c10.r10e(run, in_scope_functions(run), rule="R04f")
+    run.rule(c10.r10e, run, in_scope_functions(run), rule="R04f")
     run.rules_run.append("R04g")
-    r04g(run)
+    run.rule(r04g, run)
     run.rules_run.append("R04h")
-    r04h(run)
+    run.rule(r04h, run)
     run.rules_run.append("R04i")
-    r04i(run)
+    run.rule(r04i, run)
     run.rules_run.append("R04j")
-    r04j(run)
+    run.rule(r04j, run)
     # shared with C18: recursion through nested data classes ends at the input's depth - or, for a cyclic input, at the
     # interpreter's stack limit, which is only reached in reasonable time if a level is not re-parsed several times
     from . import c18
     run.rules_run.append("R18e")
-    c18.r18e(run)
+    run.rule(c18.r18e, run)
